@@ -318,10 +318,22 @@ impl<'m> VariantMetadata<'m> {
                 // Since shallow validation ensures the first and last offsets are in bounds,
                 // we can also verify all offsets are in-bounds by checking if
                 // offsets are monotonically increasing
-                if !offsets.is_sorted_by(|a, b| a < b) {
-                    return Err(ArrowError::InvalidArgumentError(
-                        "offsets not monotonically increasing".to_string(),
-                    ));
+                //
+                // Each entry must also start and end on a character boundary of the (already
+                // validated) string buffer, or it is not a valid string on its own
+                let mut current_offset = offsets.next().unwrap_or(0);
+                for next_offset in offsets {
+                    if current_offset >= next_offset {
+                        return Err(ArrowError::InvalidArgumentError(
+                            "offsets not monotonically increasing".to_string(),
+                        ));
+                    }
+                    if value_buffer.get(current_offset..next_offset).is_none() {
+                        return Err(ArrowError::InvalidArgumentError(format!(
+                            "range {current_offset}..{next_offset} is invalid or out of bounds"
+                        )));
+                    }
+                    current_offset = next_offset;
                 }
             }
 
